@@ -159,10 +159,10 @@ def run(out, prelude):
         rule="random handler programs (VERIF_SEED) over put/del/delall on both stores, reads, header and body "
              "writes through 0-4 nested wrappers of both unwrap conventions, plus the public helpers "
              "(DelKnownSession/DelKnownCookie/FlashSuccess/FlashError) expanded to primitives; plus every program "
-             "of length <= %d over an 8-operation alphabet; non-trivial = at least one state change precedes the "
+             "of length <= %d over a 10-operation alphabet; non-trivial = at least one state change precedes the "
              "first write (so a store call must happen); distinct by operation list" % exh,
         samples=[dict(ops=c["ops"], trace=c["trace"]) for c in cases[:2]],
-        exhaustive_part="all programs of length <= %d over 9 operations (one of them a zero-length write)" % exh,
+        exhaustive_part="all programs of length <= %d over 10 operations (among them a zero-length write and an informational 103 status)" % exh,
         traces_validated_against_impl=len(cases),
     )
     vlib.clean_cases("C11_gen")
